@@ -423,3 +423,75 @@ func boolDisjTrueEdges(fn *ssa.Function, vals []ssa.Value) []cfgx.Edge {
 	}
 	return out
 }
+
+// viaStruct sees through a small struct that merely bundles values:
+// v = s.f where s is a struct literal (or a copy of one) whose field f was
+// stored exactly once. Returns v itself otherwise.
+func viaStruct(v ssa.Value) ssa.Value {
+	for i := 0; i < 8; i++ {
+		var base ssa.Value
+		var field int
+		switch x := v.(type) {
+		case *ssa.Field:
+			base, field = x.X, x.Field
+		case *ssa.UnOp:
+			fa, ok := x.X.(*ssa.FieldAddr)
+			if !ok || x.Op != token.MUL {
+				return v
+			}
+			// field of an addressable struct variable
+			var only ssa.Value
+			n := 0
+			if al, ok := fa.X.(*ssa.Alloc); ok && al.Referrers() != nil {
+				for _, r := range *al.Referrers() {
+					// whole-struct store: continue through the stored value
+					if st, ok := r.(*ssa.Store); ok && st.Addr == ssa.Value(al) {
+						n++
+						only = st.Val
+					}
+					if ofa, ok := r.(*ssa.FieldAddr); ok && ofa.Field == fa.Field && ofa != fa && ofa.Referrers() != nil {
+						for _, rr := range *ofa.Referrers() {
+							if st, ok := rr.(*ssa.Store); ok && st.Addr == ssa.Value(ofa) {
+								return viaStruct(st.Val)
+							}
+						}
+					}
+				}
+			}
+			if n == 1 {
+				base, field = only, fa.Field
+			} else {
+				return v
+			}
+		default:
+			return v
+		}
+		// base is a struct value: a load of a literal's alloc
+		base = sole(base)
+		ld, ok := base.(*ssa.UnOp)
+		if !ok || ld.Op != token.MUL {
+			return v
+		}
+		al, ok := ld.X.(*ssa.Alloc)
+		if !ok || al.Referrers() == nil {
+			return v
+		}
+		var val ssa.Value
+		n := 0
+		for _, r := range *al.Referrers() {
+			if fa, ok := r.(*ssa.FieldAddr); ok && fa.Field == field && fa.Referrers() != nil {
+				for _, rr := range *fa.Referrers() {
+					if st, ok := rr.(*ssa.Store); ok && st.Addr == ssa.Value(fa) {
+						n++
+						val = st.Val
+					}
+				}
+			}
+		}
+		if n != 1 {
+			return v
+		}
+		v = val
+	}
+	return v
+}
